@@ -134,6 +134,24 @@ func (b *B) TypeDeclNode(t *Type, f *File) *Node {
 		return n
 	}
 	n.Pre = []*Line{b.line("type "+t.Name+" struct {", uses...)}
+	if t.Grouped == 0 {
+		t.Grouped = 1
+		if b.R != nil && len(t.Impl) == 0 && b.R.Chance(1, 4) {
+			t.Grouped = 2
+		}
+	}
+	grouped := t.Grouped == 2
+	if grouped {
+		n.Pre = []*Line{b.line(t.Name+" struct {", uses...)}
+	}
+	defer func() {
+		if grouped {
+			// type ( // doc \n X struct {...} ): the annotation is the doc comment of the spec inside the group
+			inner := *n
+			inner.TypeDecl = nil
+			*n = Node{TypeDecl: t, Pre: []*Line{b.line("type (")}, Kids: []*Node{&inner}, Post: []*Line{b.line(")")}}
+		}
+	}()
 	fld := func(name, typ string) {
 		k := &Node{Pre: []*Line{b.line(name + " " + typ)}}
 		if t.Mutable[name] {
@@ -318,6 +336,26 @@ func immTemplates() []Tmpl {
 		x := b.v()
 		return []*Node{b.stmt(x+" := "+q(t.Pkg)+env.List.Name+"()", &Use{Kind: UFuncRef, Fn: env.List, Call: true}),
 			b.stmt(x+"[0].F = 1", useT(UFieldAssign, t, "F"))}
+	}})
+	// result of a call, type assertion, map element
+	ts = append(ts, Tmpl{Name: "assign-call-result", Cat: IMM, Kind: "struct", NoImp: true, Make: func(b *B, t *Type, env *Env) []*Node {
+		c, u := callNew(t, env)
+		return []*Node{b.stmt(c+".F = 1", u, useT(UFieldAssign, t, "F"))}
+	}})
+	ts = append(ts, Tmpl{Name: "assign-type-assert", Cat: IMM, Kind: "struct", FreeT: true, Make: func(b *B, t *Type, env *Env) []*Node {
+		x := b.v()
+		c, u := callNew(t, env)
+		return []*Node{b.stmt("var "+x+" any = "+c, u), b.tstmt(x+".(*%T).F = 1", useT(UFieldAssign, t, "F"), free(refT(t, SubOther), TONL))}
+	}})
+	ts = append(ts, Tmpl{Name: "assign-map-elem", Cat: IMM, Kind: "struct", FreeT: true, Make: func(b *B, t *Type, env *Env) []*Node {
+		x := b.v()
+		c, u := callNew(t, env)
+		return []*Node{b.tstmt(x+" := map[string]*%T{\"k\": "+c+"}", u, free(refT(t, SubOther), TONL)), b.stmt(x+"[\"k\"].F++", useT(UFieldIncDec, t, "F"))}
+	}})
+	ts = append(ts, Tmpl{Name: "assign-nested-holder", Cat: IMM, Kind: "struct", Make: func(b *B, t *Type, env *Env) []*Node {
+		x := b.v()
+		c, u := callNew(t, env)
+		return []*Node{b.tstmt(x+" := struct{ in *%T }{in: "+c+"}", u, refT(t, SubField)), b.stmt(x+".in.F = 1", useT(UFieldAssign, t, "F")), b.stmt(x+".in.S[1] = 2", useT(UFieldIndexAssign, t, "S"))}
 	}})
 	// select { case x.F = <-ch: }
 	ts = append(ts, Tmpl{Name: "assign-select", Cat: IMM, Kind: "struct", Make: func(b *B, t *Type, env *Env) []*Node {
